@@ -447,7 +447,7 @@ impl C12 {
             }
         }
         // mutate one store, the other must not move
-        let mut other = Forest { xot: copy, model: crate::model::Model::new(), map: Default::default(), leaks: 0, consolidation_ever_off: false, with_model: false };
+        let mut other = Forest { xot: copy, model: crate::model::Model::new(), map: Default::default(), leaks: 0, garbage: Default::default(), consolidation_ever_off: false, with_model: false };
         let mutate_copy = rng.bool();
         let gen = OpGen { legal_only: false, allow_consolidation_toggle: true, allow_unmodelled: true };
         let mut log = Vec::new();
